@@ -34,10 +34,75 @@ func (e *Engine) kvOf(st *State, db Value) MapV {
 func sliceToString(st *State, s SliceV) StringV { return StringV{st.sliceBytes(s)} }
 
 func init() {
-	prefixNoop("(*sync.Mutex).", "(*sync.RWMutex).", "(*sync.Once).", "sync/atomic.", "(*sync/atomic.",
+	prefixNoop("sync/atomic.", "(*sync/atomic.",
 		"github.com/alephium/wormhole-fork/node/pkg/supervisor.Logger",
 		"github.com/alephium/wormhole-fork/node/pkg/readiness.",
 		"(*github.com/alephium/wormhole-fork/node/pkg/notify/discord.")
+	// ---- sync.Mutex / RWMutex / Once with real blocking semantics (cooperative scheduler, gor.go) ----
+	mkey := func(v Value) string { p := v.(Ptr); return fmt.Sprintf("%d%v", p.Obj, p.Path) }
+	getM := func(st *State, k string) int { return st.mutexes[k] }
+	setM := func(st *State, k string, v int) {
+		if st.mutexes == nil {
+			st.mutexes = map[string]int{}
+		}
+		st.mutexes[k] = v
+		st.syncVer++
+	}
+	lock := func(e *Engine, st *State, fn *ssa.Function, args []Value, retTo *ssa.Call) (Value, bool) {
+		k := mkey(args[0])
+		if getM(st, k) != 0 {
+			e.block(st, "Lock of a held mutex")
+			return pendingV, true
+		}
+		setM(st, k, -1)
+		return nil, true
+	}
+	unlock := func(e *Engine, st *State, fn *ssa.Function, args []Value, retTo *ssa.Call) (Value, bool) {
+		k := mkey(args[0])
+		if getM(st, k) != -1 {
+			e.goPanic(st, "sync: unlock of unlocked mutex", nil)
+			return nil, true
+		}
+		setM(st, k, 0)
+		return nil, true
+	}
+	exact["(*sync.Mutex).Lock"], exact["(*sync.Mutex).Unlock"] = lock, unlock
+	exact["(*sync.RWMutex).Lock"], exact["(*sync.RWMutex).Unlock"] = lock, unlock
+	exact["(*sync.Mutex).TryLock"] = func(e *Engine, st *State, fn *ssa.Function, args []Value, retTo *ssa.Call) (Value, bool) {
+		k := mkey(args[0])
+		if getM(st, k) != 0 {
+			return False, true
+		}
+		setM(st, k, -1)
+		return True, true
+	}
+	exact["(*sync.RWMutex).RLock"] = func(e *Engine, st *State, fn *ssa.Function, args []Value, retTo *ssa.Call) (Value, bool) {
+		k := mkey(args[0])
+		if getM(st, k) < 0 {
+			e.block(st, "RLock of a write-locked mutex")
+			return pendingV, true
+		}
+		setM(st, k, getM(st, k)+1)
+		return nil, true
+	}
+	exact["(*sync.RWMutex).RUnlock"] = func(e *Engine, st *State, fn *ssa.Function, args []Value, retTo *ssa.Call) (Value, bool) {
+		k := mkey(args[0])
+		if getM(st, k) <= 0 {
+			e.goPanic(st, "sync: RUnlock of unlocked RWMutex", nil)
+			return nil, true
+		}
+		setM(st, k, getM(st, k)-1)
+		return nil, true
+	}
+	exact["(*sync.Once).Do"] = func(e *Engine, st *State, fn *ssa.Function, args []Value, retTo *ssa.Call) (Value, bool) {
+		k := "once:" + mkey(args[0])
+		if getM(st, k) != 0 {
+			return nil, true
+		}
+		setM(st, k, 1)
+		e.callClosure(st, args[1], nil, func(st *State, res Value) {}, nil)
+		return pendingV, true
+	}
 	exact["github.com/mr-tron/base58.Encode"] = opaqueString("base58")
 	exact["regexp.MustCompile"] = noop
 	exact["regexp.Compile"] = noop
